@@ -28,6 +28,7 @@ def run(rep, tier):
     common.guarded(rep, "C06.5", c06_5, rep, ix, G)
     common.guarded(rep, "C06.6", c06_6, rep, ix)
     common.guarded(rep, "C06.7", c06_7, rep, ix)
+    common.guarded(rep, "C06.8", c06_8, rep, ix)
     # the statements of the body are ordinary statements: their arguments are the evaluated expressions, in written order and unconverted
     from . import c02
     common.guarded(rep, "C02.3", c02.c02_3, rep, ix, gm.Model(rep))
@@ -55,6 +56,35 @@ def c06_6(rep, ix):
                     rep.bad(R, ix.site(f, n), "`%s` does not rebind an attribute of the listener" % " ".join(u(n).split())[:70], key="attr|" + t.attr)
     if not bad:
         rep.ok(R, ix.site(f), "exitStatement mutates only objects reachable from self._program (%d mutation events inspected)" % len(E.events.get(STMT, [])))
+
+
+def c06_8(rep, ix):
+    """loop values are Blackbird values: an int of a script has arbitrary precision, in a loop as in its unrolling"""
+    R = "C06.8"
+    rep.rule(R, "exitForloop converts no loop value with a fixed-width NumPy type (dtype= / astype / a NUMPY_TYPES entry): NumPy refuses or wraps integers beyond 64 bits "
+                "(library model: np.array([2**63], dtype=np.int64) raises OverflowError) which the unrolled statements accept", floor=1)
+    f = ix.func(EXIT)
+    bad = 0
+    for n in walk_shallow(f.node):
+        if not isinstance(n, ast.Call):
+            continue
+        why = None
+        for kw in n.keywords:
+            if kw.arg == "dtype" and not (u(kw.value) in ("object", "np.object_", "None") or (isinstance(kw.value, ast.Constant) and kw.value.value in ("object", "O", None))):
+                why = "dtype=%s" % u(kw.value)
+        if isinstance(n.func, ast.Attribute) and n.func.attr == "astype" and n.args and u(n.args[0]) not in ("object", "np.object_"):
+            why = ".astype(%s)" % u(n.args[0])
+        if isinstance(n.func, ast.Subscript) and u(n.func.value).split(".")[-1] == "NUMPY_TYPES":
+            why = "a call of %s" % u(n.func)
+        if isinstance(n.func, ast.Attribute) and u(n.func.value) in ("np", "numpy") and n.func.attr in ("int64", "int32", "int_", "intc", "float64", "float32", "complex128", "longlong", "uint64"):
+            why = "np.%s(...)" % n.func.attr
+        if why:
+            bad += 1
+            rep.bad(R, ix.site(f, n), "`%s` leaves the loop values as Python evaluated them" % " ".join(u(n).split())[:80],
+                    "%s converts them to a fixed-width NumPy type: `for int k in [3, 9223372036854775808]` is refused (or wrapped) although its unrolling loads" % why,
+                    key="fixedwidth|" + " ".join(u(n).split())[:60])
+    if not bad:
+        rep.ok(R, ix.site(f), "no fixed-width conversion in exitForloop")
 
 
 def const_bool(e):
